@@ -27,6 +27,11 @@ use core::fmt;
 /// A compressed bitmap using the [Roaring bitmap compression scheme](https://roaringbitmap.org/).
 pub mod bitmap;
 
+/// Verification instrumentation: bounds recorders in front of every unchecked access
+/// (only compiled with `--cfg roaring_verif`).
+#[cfg(roaring_verif)]
+pub mod verif_hooks;
+
 /// A compressed bitmap with u64 values.  Implemented as a `BTreeMap` of `RoaringBitmap`s.
 pub mod treemap;
 
